@@ -110,13 +110,23 @@ def random_items(ctx, n, pools=False):
             klass = "hugeprefix"
         items.append({"name": "rnd%d" % t, "cfg": cfg, "adds": adds, "origin": "random", "klass": klass, "poolsize": pool,
                       "verify": rng.randint(0, 1), "madv": rng.randint(0, 1)})
+    if pools:
+        # many blocks through a pool of several real threads, every compression type (blocks are compressed on the workers:
+        # several compressions of one kind run at the same time)
+        reps = 2 if ctx.quick() else 12
+        for ci, comp in enumerate(gen.COMPS * reps):
+            vg = gen.VGen(900000 + ci * 700)
+            adds = [(("p%04d" % i).encode(), vg.val(rng.choice([300, 500, 700]))) for i in range(80)]
+            cfg = dict(gen.writer_cfg(comp=comp, bs=1024, ri=rng.choice([2, 16])), level=rng.choice(["default", "default", "1", "9"]))
+            items.append({"name": "pm%d" % ci, "cfg": cfg, "adds": adds, "origin": "random", "klass": "pooledmulti", "poolsize": rng.choice([2, 4, 8]),
+                          "verify": 1, "madv": 0})
     return items
 
 
 def preexisting_items(ctx, n):
     """C08: mtbl_writer_init on an existing path."""
     items = []
-    kinds = ["file", "emptyfile", "table", "dir", "symlink"]
+    kinds = ["file", "emptyfile", "table", "dir", "symlink", "dangling", "symlink_dir"]
     for t in range(n):
         items.append({"name": "pre%d" % t, "cfg": gen.writer_cfg(), "adds": [], "origin": "pre", "pre": kinds[t % len(kinds)]})
     return items
@@ -140,12 +150,18 @@ def item_script(wd, it):
         elif pre == "symlink":
             L.append("mkfile %s.target G8x50" % path)
             L.append("symlink %s.target %s" % (path, path))
+        elif pre == "dangling":           # a symbolic link whose target does not exist: still an existing path
+            L.append("absent %s.target" % path)
+            L.append("symlink %s.target %s" % (path, path))
+        elif pre == "symlink_dir":
+            L.append("mkdir %s.target" % path)
+            L.append("symlink %s.target %s" % (path, path))
         if pre in ("file", "emptyfile"):
             L.append("hash " + path)
         L.append(gen.w_init_line(0, path, cfg))
         if pre in ("file", "emptyfile"):
             L.append("hash " + path)
-        if pre == "symlink":
+        if pre in ("symlink", "dangling"):
             L.append("hash %s.target" % path)
         return L
     ps = it.get("poolsize", -1)
@@ -159,7 +175,15 @@ def item_script(wd, it):
     if ps >= 0:
         L.append("pool_destroy 0")
     L.append("r_init 0 %s %d %d" % (path, it.get("verify", 1), it.get("madv", 0)))
-    L += ["r_meta 0", "it_iter 1 r:0", "it_drain 1", "it_destroy 1", "r_destroy 0"]
+    L += ["r_meta 0", "it_iter 1 r:0", "it_drain 1", "it_destroy 1"]
+    # a few seeks as well (the seek path computes block positions on its own): first, middle and last key offered, forwards and back
+    ks = [k for k, v in it["adds"]]
+    if ks:
+        L.append("it_iter 2 r:0")
+        for k in (ks[len(ks) // 2], ks[-1], ks[0], ks[len(ks) // 3]):
+            L += ["it_seek 2 %s" % shapes.hexs(k), "it_next 2 2"]
+        L.append("it_destroy 2")
+    L.append("r_destroy 0")
     return L
 
 
